@@ -330,3 +330,60 @@ func (s *Shape) Depth() int {
 	}
 	return d + 1
 }
+
+// Clone deep-copies a shape tree.
+func (s *Shape) Clone() *Shape {
+	if s == nil {
+		return nil
+	}
+	c := *s
+	cpI := func(p *int64) *int64 {
+		if p == nil {
+			return nil
+		}
+		v := *p
+		return &v
+	}
+	cpF := func(p *float64) *float64 {
+		if p == nil {
+			return nil
+		}
+		v := *p
+		return &v
+	}
+	c.Min, c.Max, c.FMin, c.FMax = cpI(s.Min), cpI(s.Max), cpF(s.FMin), cpF(s.FMax)
+	c.IntVals = append([]int64{}, s.IntVals...)
+	c.StrVals = append([]string{}, s.StrVals...)
+	c.Items, c.Keys, c.Vals = s.Items.Clone(), s.Keys.Clone(), s.Vals.Clone()
+	c.Props = nil
+	for _, p := range s.Props {
+		q := *p
+		q.T = p.T.Clone()
+		q.ReqIf = append([]string{}, p.ReqIf...)
+		q.ReqIfNot = append([]string{}, p.ReqIfNot...)
+		q.Conflicts = append([]string{}, p.Conflicts...)
+		if p.Default != nil {
+			d := *p.Default
+			q.Default = &d
+		}
+		c.Props = append(c.Props, &q)
+	}
+	c.Members = nil
+	for _, m := range s.Members {
+		mm := *m
+		mm.T = m.T.Clone()
+		c.Members = append(c.Members, &mm)
+	}
+	c.Objects = nil
+	for _, o := range s.Objects {
+		c.Objects = append(c.Objects, o.Clone())
+	}
+	return &c
+}
+
+// Nodes lists every node of the tree (not following references), parents before children.
+func (s *Shape) Nodes() []*Shape {
+	var out []*Shape
+	s.Walk(func(x *Shape) { out = append(out, x) })
+	return out
+}
